@@ -54,6 +54,7 @@ func (c16) Assumptions() []string {
 
 var stdStringTypes = map[reflect.Type]bool{
 	reflect.TypeFor[time.Time](): true, reflect.TypeFor[slog.Level](): true, reflect.TypeFor[big.Int](): true, reflect.TypeFor[big.Rat](): true, reflect.TypeFor[big.Float](): true,
+	reflect.TypeFor[json.Number](): true, // built-in translation too, but to "number"
 }
 
 func oldNullMode() bool { return os.Getenv("JSONSCHEMAGODEBUG") == "typeschemasnull=1" }
@@ -134,6 +135,9 @@ func (w *walkCtx) walk(t reflect.Type, s *jsonschema.Schema, path string, depth 
 			want = entry.CloneSchemas()
 		} else {
 			want = &jsonschema.Schema{Type: "string"}
+			if t == reflect.TypeFor[json.Number]() {
+				want = &jsonschema.Schema{Type: "number"} // a string in Go, a number in JSON
+			}
 			if t == reflect.TypeFor[big.Int]() && oldNullMode() {
 				want = &jsonschema.Schema{Types: []string{"null", "string"}}
 			}
@@ -274,6 +278,51 @@ func (w *walkCtx) walkStruct(t reflect.Type, s *jsonschema.Schema, path string, 
 			}
 			for _, pf := range structFieldsOf(ft) {
 				fromOverride[pf.name] = true
+			}
+		}
+	}
+	// ... and the entry is SUBSTITUTED for the embedded struct (by value or through a pointer): each of its properties is
+	// there as a clone, and a field the embedded struct promotes that the entry does not name is absent
+	own := map[string]bool{}
+	for i := 0; i < t.NumField(); i++ {
+		if f := t.Field(i); !f.Anonymous {
+			name, _, _ := strings.Cut(f.Tag.Get("json"), ",")
+			if name == "" {
+				name = f.Name
+			}
+			own[name] = true
+		}
+	}
+	for i := 0; i < t.NumField(); i++ {
+		f := t.Field(i)
+		ft := f.Type
+		if ft.Kind() == reflect.Pointer {
+			ft = ft.Elem()
+		}
+		entry := w.overrides[ft]
+		if !f.Anonymous || entry == nil || ft.Kind() != reflect.Struct || f.Tag.Get("json") != "" {
+			continue
+		}
+		for name, want := range entry.Properties {
+			if own[name] {
+				continue
+			}
+			got, ok := s.Properties[name]
+			if !ok {
+				w.fail(path, "struct %s embeds %s, which has a TypeSchemas entry, but the entry's property %q is missing", t, f.Type, name)
+				continue
+			}
+			wb, _ := json.Marshal(want)
+			gb, _ := json.Marshal(got)
+			if !bytes.Equal(wb, gb) {
+				w.fail(path, "struct %s embeds %s: property %q is %s, want (a clone of) the entry's %s", t, f.Type, name, gb, wb)
+			}
+		}
+		for _, pf := range structFieldsOf(ft) {
+			if _, named := entry.Properties[pf.name]; !named && !own[pf.name] {
+				if _, present := s.Properties[pf.name]; present {
+					w.fail(path, "struct %s embeds %s, which has a TypeSchemas entry without %q, yet the property is there (the entry was not substituted)", t, f.Type, pf.name)
+				}
 			}
 		}
 	}
@@ -421,7 +470,7 @@ func (p c16) Run(c *fw.Case) {
 		t, label = gen.Pick(r, typecorpus.WithStd), "corpus-std"
 	case kind == 2:
 		// TypeSchemas overrides, incl. an embedded override and a type that occurs several times
-		t = gen.Pick(r, []reflect.Type{reflect.TypeFor[typecorpus.WithCustom](), reflect.TypeFor[typecorpus.WithCustomPtr](), reflect.TypeFor[[]typecorpus.WithCustomPtr](), reflect.TypeFor[typecorpus.EmbCustomObj](), reflect.TypeFor[typecorpus.Repeats](), reflect.TypeFor[[]*typecorpus.WithCustom](), reflect.TypeFor[map[string]typecorpus.Repeats]()})
+		t = gen.Pick(r, []reflect.Type{reflect.TypeFor[typecorpus.WithCustom](), reflect.TypeFor[typecorpus.WithCustomPtr](), reflect.TypeFor[[]typecorpus.WithCustomPtr](), reflect.TypeFor[typecorpus.EmbCustomObj](), reflect.TypeFor[typecorpus.EmbCustomObj2](), reflect.TypeFor[typecorpus.EmbCustomObj2Ptr](), reflect.TypeFor[[]typecorpus.EmbCustomObj2Ptr](), reflect.TypeFor[typecorpus.Repeats](), reflect.TypeFor[[]*typecorpus.WithCustom](), reflect.TypeFor[map[string]typecorpus.Repeats]()})
 		// the caller's slices may have spare capacity (append-built, or decoded from JSON)
 		customTypes := make([]string, 0, 2+r.IntN(4))
 		customTypes = append(customTypes, "integer", "string")
@@ -432,6 +481,8 @@ func (p c16) Run(c *fw.Case) {
 			reflect.TypeFor[typecorpus.Custom]():    {Types: customTypes, Description: "custom", Required: append(make([]string, 0, 4), "zz"), Enum: append(make([]any, 0, 4), 7.0, "seven", true)},
 			reflect.TypeFor[typecorpus.CustomObj](): {Type: "object", Properties: map[string]*jsonschema.Schema{"p": {Type: "integer"}, "q": {Type: "integer", AllOf: []*jsonschema.Schema{{Minimum: jsonschema.Ptr(1.0)}}}}},
 			reflect.TypeFor[typecorpus.Inner]():     {Type: "object", Properties: map[string]*jsonschema.Schema{"x": {Type: "integer"}}, AdditionalProperties: &jsonschema.Schema{}},
+			// an entry that names OTHER properties than the struct's fields: substitution is visible
+			reflect.TypeFor[typecorpus.CustomObj2](): {Type: "object", Properties: map[string]*jsonschema.Schema{"p": {Type: "string", Description: "the entry's p"}, "extra": {Type: "boolean"}}},
 		}}
 		if r.IntN(2) == 0 {
 			opts.TypeSchemas[reflect.TypeFor[time.Time]()] = &jsonschema.Schema{Type: "string", Format: "date-time"}
@@ -566,6 +617,11 @@ func (p c16) Run(c *fw.Case) {
 		return
 	}
 	// overwrite every node of the first result; a third call must be unaffected
+	if opts == nil || len(opts.TypeSchemas) == 0 {
+		// without caller-supplied entries every number in the result was made by this call: writing THROUGH the pointers
+		// (a caller tightening a bound in place) must not reach the next result either
+		writeThroughNumbers(s1, map[*jsonschema.Schema]bool{})
+	}
 	overwriteAll(s1, map[*jsonschema.Schema]bool{})
 	s3, err3, ok := call()
 	if !ok {
@@ -758,4 +814,38 @@ func (c16) RunKnown(id string) (bool, string, error) {
 		return true, fmt.Sprintf("encoding/json emits %q, the schema lists %q (required %q)", keys, s.PropertyOrder, s.Required), nil
 	}
 	return false, "", nil
+}
+
+// writeThroughNumbers changes the value behind every *float64 / *int keyword of the tree.
+func writeThroughNumbers(s *jsonschema.Schema, seen map[*jsonschema.Schema]bool) {
+	if s == nil || seen[s] {
+		return
+	}
+	seen[s] = true
+	v := reflect.ValueOf(s).Elem()
+	for i := 0; i < v.NumField(); i++ {
+		if !v.Type().Field(i).IsExported() {
+			continue
+		}
+		switch x := v.Field(i).Interface().(type) {
+		case *float64:
+			if x != nil {
+				*x += 1000.5
+			}
+		case *int:
+			if x != nil {
+				*x += 1000
+			}
+		case *jsonschema.Schema:
+			writeThroughNumbers(x, seen)
+		case []*jsonschema.Schema:
+			for _, k := range x {
+				writeThroughNumbers(k, seen)
+			}
+		case map[string]*jsonschema.Schema:
+			for _, k := range x {
+				writeThroughNumbers(k, seen)
+			}
+		}
+	}
 }
